@@ -32,7 +32,7 @@ type c20Trip struct {
 	inPlanned     bool
 }
 
-const protoRequires = "From Coq Require Import ZArith List.\nFrom Flap Require Import Model.TripHistory Model.Engine Run.RunTH Run.RunEngine Run.RunProtocol.\nImport ListNotations.\nOpen Scope Z_scope."
+const protoRequires = "From Coq Require Import ZArith List.\nFrom Flap Require Import Model.TripHistory Model.Engine Run.RunTH Run.RunEngine Run.RunProtocol Run.RunSim.\nImport ListNotations.\nOpen Scope Z_scope."
 
 func genC20Protocol(rng *Rng, workdir string, stress bool) *engSession {
 	return genProtocol(rng, workdir, stress, "C08", -1)
@@ -580,7 +580,7 @@ func runC20(o *Out, rng *Rng, tier string, replay string) {
 	if tier == "thorough" {
 		shards = 48 // stress histories of 100-200 days take seconds each to replay: keep every file well below the evaluation time limit
 	}
-	o.FlushCases("C20", protoRequires, "list (list eop)", "ep_mismatches 0%nat", shards)
+	o.FlushCases("C20", protoRequires, "list (list eop)", "eps_mismatches 0%nat", shards)
 	o.sum.Notes = append(o.sum.Notes, "every operation of every protocol history is decided inside Coq against the discipline of C20_engine_history_every_checkin_accepted (conformsb on the model's state before the operation, one clock per traveller); an empty mismatch list means every generated history is conforming, i.e. the whole-history theorem applies to each of them (the discipline is fully decidable: the clause about the predictor is 'every accepted proposal has positive clearance dates', checked on the model's proposal)")
 	simBase := filepath.Join(o.dir, "sims")
 	type job struct{ sp *simSpec }
